@@ -607,3 +607,57 @@ theorem stripZeros7_snoc (init : List Byte) (x : Byte) (hx : x.toNat % 128 ≠ 0
   simp
 
 end Spec
+namespace Spec
+
+/-- decoded varints are 64-bit values -/
+theorem decVarintAux_bound : ∀ (b : List Byte) (i v n : Nat), i ≤ 9 → decVarintAux i b = .ok (v, n) →
+    v + 2 ^ (7 * i) ≤ 2 ^ 64
+  | [], i, v, n, _, h => by simp [decVarintAux] at h
+  | x :: b, i, v, n, hi, h => by
+    unfold decVarintAux at h
+    have hx := x.isLt
+    by_cases h9 : i ≥ 9
+    · have : i = 9 := by omega
+      subst this
+      simp only [h9, if_true] at h
+      split at h
+      · simp only [Except.ok.injEq, Prod.mk.injEq] at h
+        have : (2:Nat) ^ (7 * 9) = 9223372036854775808 := by decide
+        rw [this] at h ⊢; omega
+      · simp at h
+    · simp only [h9, if_false] at h
+      have hp : 2 ^ (7 * (i + 1)) = 128 * 2 ^ (7 * i) := by
+        rw [Nat.mul_add, Nat.pow_add]; simp [Nat.mul_comm]
+      have hpb : 2 ^ (7 * (i + 1)) ≤ 2 ^ 63 := Nat.pow_le_pow_right (by omega) (by omega)
+      have hpos : 0 < 2 ^ (7 * i) := Nat.pow_pos (by omega)
+      generalize 2 ^ (7 * i) = p at *
+      split at h
+      · rename_i hlt
+        simp only [Except.ok.injEq, Prod.mk.injEq] at h
+        have : x.toNat * p ≤ 127 * p := Nat.mul_le_mul_right p (by omega)
+        omega
+      · split at h
+        · rename_i v' n' heq
+          have ih := decVarintAux_bound b (i + 1) v' n' (by omega) heq
+          rw [hp] at ih
+          simp only [Except.ok.injEq, Prod.mk.injEq] at h
+          have : (x.toNat - 128) * p ≤ 127 * p := Nat.mul_le_mul_right p (by omega)
+          omega
+        · simp at h
+
+theorem decVarint_lt {b : List Byte} {v n : Nat} (h : decVarint b = .ok (v, n)) : v < 2 ^ 64 := by
+  have := decVarintAux_bound b 0 v n (by omega) h
+  simp at this; omega
+
+theorem decBytes_lt {b p : List Byte} {n : Nat} (h : decBytes b = .ok (p, n)) : p.length < 2 ^ 64 := by
+  unfold decBytes at h
+  split at h
+  · simp at h
+  · rename_i m n' heq
+    have := decVarint_lt heq
+    split at h
+    · simp at h
+    · simp only [Except.ok.injEq, Prod.mk.injEq] at h
+      rw [← h.1]; simp only [List.length_take]; omega
+
+end Spec
